@@ -3,8 +3,11 @@
 
 Model of `ParsedFragment::parse` + `to_request` (`app/parse/parser.rs`) and of the object-header
 pass (`ObjectParser`) restricted to the group/variation vocabulary the outstation engine uses.
-Every (group, variation) outside `varInfo` is treated as unknown to the library; the engine's
-generators only use unknown pairs that really are unknown (`g99v1`, `g1v9`, …).  The complete
+`varInfo` covers every (group, variation) of the eight point types of the outstation database
+(g1/g2, g3/g4, g10/g11, g20/g22, g21/g23, g30/g32, g40/g42, g110/g111) + frozen analogs (g31/g33) and
+analog dead-bands (g34), the control and time objects the engine uses.  Every other pair is treated
+as unknown to the library; the engine's generators only use unknown pairs that really are unknown
+(`g99v1`, `g1v9`, …).  The complete
 object grammar is the subject of C09 (`Dnp3.Model.ObjectGrammar`).
 -/
 namespace Dnp3
@@ -52,33 +55,59 @@ structure VarInfo where
   prefixed : Option Nat := none
 deriving Repr, Inhabited
 
-def varInfo (g v : Nat) : Option VarInfo :=
+/-- sizes of the fixed-size event variations (object without its index prefix) -/
+def evVarSize (g v : Nat) : Option Nat :=
   match g, v with
-  | 1, 0 => some { all := true, ranged := some (some 0) }
-  | 1, 1 => some { all := true, ranged := some none }
-  | 1, 2 => some { all := true, ranged := some (some 1) }
-  | 2, 0 => some { all := true, count := some 0 }
-  | 2, 1 => some { all := true, count := some 0, prefixed := some 1 }
-  | 2, 2 => some { all := true, count := some 0, prefixed := some 7 }
-  | 2, 3 => some { all := true, count := some 0, prefixed := some 3 }
+  | 2, 1 => some 1 | 2, 2 => some 7 | 2, 3 => some 3
+  | 4, 1 => some 1 | 4, 2 => some 7 | 4, 3 => some 3
+  | 11, 1 => some 1 | 11, 2 => some 7
+  | 22, 1 => some 5 | 22, 2 => some 3 | 22, 5 => some 11 | 22, 6 => some 9
+  | 23, 1 => some 5 | 23, 2 => some 3 | 23, 5 => some 11 | 23, 6 => some 9
+  | 32, 1 => some 5 | 32, 2 => some 3 | 32, 3 => some 11 | 32, 4 => some 9
+  | 32, 5 => some 5 | 32, 6 => some 9 | 32, 7 => some 11 | 32, 8 => some 15
+  | 33, 1 => some 5 | 33, 2 => some 3 | 33, 3 => some 11 | 33, 4 => some 9
+  | 33, 5 => some 5 | 33, 6 => some 9 | 33, 7 => some 11 | 33, 8 => some 15
+  | 42, 1 => some 5 | 42, 2 => some 3 | 42, 3 => some 11 | 42, 4 => some 9
+  | 42, 5 => some 5 | 42, 6 => some 9 | 42, 7 => some 11 | 42, 8 => some 15
+  | _, _ => none
+
+/-- sizes of the fixed-size static variations -/
+def stVarSize (g v : Nat) : Option Nat :=
+  match g, v with
+  | 1, 2 => some 1 | 3, 2 => some 1 | 10, 2 => some 1
+  | 20, 1 => some 5 | 20, 2 => some 3 | 20, 5 => some 4 | 20, 6 => some 2
+  | 21, 1 => some 5 | 21, 2 => some 3 | 21, 5 => some 11 | 21, 6 => some 9 | 21, 9 => some 4 | 21, 10 => some 2
+  | 30, 1 => some 5 | 30, 2 => some 3 | 30, 3 => some 4 | 30, 4 => some 2 | 30, 5 => some 5 | 30, 6 => some 9
+  | 31, 1 => some 5 | 31, 2 => some 3 | 31, 3 => some 11 | 31, 4 => some 9
+  | 31, 5 => some 4 | 31, 6 => some 2 | 31, 7 => some 5 | 31, 8 => some 9
+  | 40, 1 => some 5 | 40, 2 => some 3 | 40, 3 => some 5 | 40, 4 => some 9
+  | _, _ => none
+
+/-- the static groups of the outstation database (+ frozen analogs) / its event groups -/
+def isStaticGroup (g : Nat) : Bool := g = 1 || g = 3 || g = 10 || g = 20 || g = 21 || g = 30 || g = 31 || g = 40
+def isEventGroup (g : Nat) : Bool := g = 2 || g = 4 || g = 11 || g = 22 || g = 23 || g = 32 || g = 33 || g = 42
+
+def varInfo (g v : Nat) : Option VarInfo :=
+  -- the point groups of the database: variation 0 (any variation), the packed variations, the fixed-size ones
+  if isStaticGroup g then
+    if v = 0 then some { all := true, ranged := some (some 0) }
+    else if v = 1 ∧ (g = 1 ∨ g = 10) then some { all := true, ranged := some none }
+    else if v = 1 ∧ g = 3 then some { all := true, ranged := some none }   -- double bits: size outside READ not modelled
+    else match stVarSize g v with
+      | some n => some { all := true, ranged := some (some n) }
+      | none => none
+  else if isEventGroup g then
+    if v = 0 then some { all := true, count := some 0 }
+    else match evVarSize g v with
+      | some n => some { all := true, count := some 0, prefixed := some n }
+      | none => none
+  else
+  match g, v with
   | 12, 1 => some { prefixed := some 11 }
-  | 20, 0 => some { all := true, ranged := some (some 0) }
-  | 30, 0 => some { all := true, ranged := some (some 0) }
-  | 30, 1 => some { all := true, ranged := some (some 5) }
-  | 30, 2 => some { all := true, ranged := some (some 3) }
-  | 30, 3 => some { all := true, ranged := some (some 4) }
-  | 30, 4 => some { all := true, ranged := some (some 2) }
-  | 30, 5 => some { all := true, ranged := some (some 5) }
-  | 30, 6 => some { all := true, ranged := some (some 9) }
-  | 32, 0 => some { all := true, count := some 0 }
-  | 32, 1 => some { all := true, count := some 0, prefixed := some 5 }
-  | 32, 2 => some { all := true, count := some 0, prefixed := some 3 }
-  | 32, 3 => some { all := true, count := some 0, prefixed := some 11 }
-  | 32, 4 => some { all := true, count := some 0, prefixed := some 9 }
-  | 32, 5 => some { all := true, count := some 0, prefixed := some 5 }
-  | 32, 6 => some { all := true, count := some 0, prefixed := some 9 }
-  | 32, 7 => some { all := true, count := some 0, prefixed := some 11 }
-  | 32, 8 => some { all := true, count := some 0, prefixed := some 15 }
+  | 34, 0 => some { all := true }
+  | 34, 1 => some { all := true, ranged := some (some 2) }
+  | 34, 2 => some { all := true, ranged := some (some 4) }
+  | 34, 3 => some { all := true, ranged := some (some 4) }
   | 41, 1 => some { prefixed := some 5 }
   | 41, 2 => some { prefixed := some 3 }
   | 41, 3 => some { prefixed := some 5 }
@@ -90,6 +119,11 @@ def varInfo (g v : Nat) : Option VarInfo :=
   | 60, 3 => some { all := true, count := some 0 }
   | 60, 4 => some { all := true, count := some 0 }
   | 80, 1 => some { all := true, ranged := some none }
+  -- octet strings: variation 0 in a READ; a variation n is the length (only the prefixed g111 form carries data)
+  | 110, 0 => some { all := true, ranged := some (some 0) }
+  | 110, _ => some {}
+  | 111, 0 => some { all := true, count := some 0 }
+  | 111, n => some { count := some 0, prefixed := some n }
   | _, _ => none
 
 /-- one parsed object header -/
